@@ -1192,6 +1192,9 @@ pub fn run_composite_sx(c: &CompCase, sx: &mut Sx) -> Verdict {
             let (pre, pim) = gen_slots(m, 0.9, c.seed ^ 0x77);
             let mut rnx = CKKSPlaintextVecRnx::<f64>::alloc(n).unwrap();
             cx.encoder.encode_reim(&mut rnx, &pre, &pim).unwrap();
+            let znx_sel = (c.seed >> 9) & 1 == 1;
+            let mut znx = alloc_pt_vec_znx((n as u32).into(), (b as u32).into(), prec);
+            rnx.to_znx(&mut znx).unwrap();
             let cst = match c.seed % 4 {
                 0 => CKKSPlaintextCstRnx::<f64>::new(Some(pre[0]), Some(pim[0])),
                 1 => CKKSPlaintextCstRnx::<f64>::new(Some(pre[0]), None),
@@ -1202,6 +1205,9 @@ pub fn run_composite_sx(c: &CompCase, sx: &mut Sx) -> Verdict {
             let (r1, r2): (anyhow::Result<()>, anyhow::Result<()>) = match kind {
                 0 => (md.ckks_mul_add_ct_into(&mut dst1, &a.ct, &bb.ct, &cx.tsk, sx.op("ckks_mul_add_ct_into", || md.ckks_mul_add_ct_tmp_bytes(&wl, &cx.tsk))), md.ckks_mul_into(&mut tmp, &a.ct, &bb.ct, &cx.tsk, sx.roomy()).and_then(|_| md.ckks_add_assign(&mut dst2, &tmp, sx.roomy()))),
                 1 => (md.ckks_mul_sub_ct_into(&mut dst1, &a.ct, &bb.ct, &cx.tsk, sx.op("ckks_mul_sub_ct_into", || md.ckks_mul_sub_ct_tmp_bytes(&wl, &cx.tsk))), md.ckks_mul_into(&mut tmp, &a.ct, &bb.ct, &cx.tsk, sx.roomy()).and_then(|_| md.ckks_sub_assign(&mut dst2, &tmp, sx.roomy()))),
+                // the vector forms also through a caller-built ZNX plaintext (same quantisation as the RNX form produces internally)
+                2 if znx_sel => (md.ckks_mul_add_pt_vec_znx_into(&mut dst1, &a.ct, &znx, sx.op("ckks_mul_add_pt_vec_znx_into", || md.ckks_mul_add_pt_vec_znx_tmp_bytes(&wl, &wl, &prec))), md.ckks_mul_pt_vec_znx_into(&mut tmp, &a.ct, &znx, sx.roomy()).and_then(|_| md.ckks_add_assign(&mut dst2, &tmp, sx.roomy()))),
+                3 if znx_sel => (md.ckks_mul_sub_pt_vec_znx_into(&mut dst1, &a.ct, &znx, sx.op("ckks_mul_sub_pt_vec_znx_into", || md.ckks_mul_sub_pt_vec_znx_tmp_bytes(&wl, &wl, &prec))), md.ckks_mul_pt_vec_znx_into(&mut tmp, &a.ct, &znx, sx.roomy()).and_then(|_| md.ckks_sub_assign(&mut dst2, &tmp, sx.roomy()))),
                 2 => (md.ckks_mul_add_pt_vec_rnx_into(&mut dst1, &a.ct, &rnx, prec, sx.op("ckks_mul_add_pt_vec_rnx_into", || md.ckks_mul_add_pt_vec_rnx_tmp_bytes(&wl, &wl, &prec))), md.ckks_mul_pt_vec_rnx_into(&mut tmp, &a.ct, &rnx, prec, sx.roomy()).and_then(|_| md.ckks_add_assign(&mut dst2, &tmp, sx.roomy()))),
                 3 => (md.ckks_mul_sub_pt_vec_rnx_into(&mut dst1, &a.ct, &rnx, prec, sx.op("ckks_mul_sub_pt_vec_rnx_into", || md.ckks_mul_sub_pt_vec_rnx_tmp_bytes(&wl, &wl, &prec))), md.ckks_mul_pt_vec_rnx_into(&mut tmp, &a.ct, &rnx, prec, sx.roomy()).and_then(|_| md.ckks_sub_assign(&mut dst2, &tmp, sx.roomy()))),
                 4 => (
@@ -1352,12 +1358,22 @@ pub fn run_composite_sx(c: &CompCase, sx: &mut Sx) -> Verdict {
                     }
                 })
                 .collect();
+            let znx_sel = (c.seed >> 9) & 1 == 1;
+            let znxs: Vec<poulpy_ckks::layouts::plaintext::CKKSPlaintextVecZnx<Vec<u8>>> = rnxs
+                .iter()
+                .map(|r| {
+                    let mut z = alloc_pt_vec_znx((n as u32).into(), (b as u32).into(), prec);
+                    r.to_znx(&mut z).unwrap();
+                    z
+                })
+                .collect();
             let ains: Vec<&CKKSCiphertext<Vec<u8>>> = terms.iter().map(|r| &r.ct).collect();
             let bins: Vec<&CKKSCiphertext<Vec<u8>>> = others.iter().map(|r| &r.ct).collect();
             let mut dst1 = alloc(c.dst_limbs);
             let mut dst2 = alloc(c.dst_limbs);
             let wl = widest(&dst1, &[ains.clone(), bins.clone()].concat());
             let r1: anyhow::Result<()> = match kind {
+                9 if znx_sel => md.ckks_dot_product_pt_vec_znx(&mut dst1, &ains, &znxs.iter().collect::<Vec<_>>(), sx.op("ckks_dot_product_pt_vec_znx", || md.ckks_dot_product_pt_vec_znx_tmp_bytes(&wl, &wl, &prec))),
                 9 => md.ckks_dot_product_pt_vec_rnx(&mut dst1, &ains, &rnxs.iter().collect::<Vec<_>>(), prec, sx.op("ckks_dot_product_pt_vec_rnx", || md.ckks_dot_product_pt_vec_rnx_tmp_bytes(&wl, &wl, &prec))),
                 10 => md.ckks_dot_product_pt_const_rnx(&mut dst1, &ains, &csts.iter().collect::<Vec<_>>(), prec, sx.op("ckks_dot_product_pt_const_rnx", || md.ckks_dot_product_pt_const_tmp_bytes(&wl, &wl, &prec))),
                 _ => md.ckks_dot_product_ct(&mut dst1, &ains, &bins, &cx.tsk, sx.op("ckks_dot_product_ct", || md.ckks_dot_product_ct_tmp_bytes(nterms, &wl, &cx.tsk))),
